@@ -89,11 +89,29 @@ type BuiltInFunctionReturnBundle = (
 );
 
 impl BuiltInFunction {
+    /// Whether a parameter of this function (the receiver aside) accepts values of any type,
+    /// `nil` included: list elements, map keys and map values.
+    fn takes_any_value(&self) -> bool {
+        matches!(
+            self,
+            Self::VecPush | Self::VecIndexOf | Self::MapHasKey | Self::MapReplace | Self::MapRemove
+        )
+    }
+
     pub fn run(&self, ctx: &mut Ctx) -> Result<BuiltInFunctionReturnBundle> {
         let mut arguments = ctx.ref_clear_local_operating_stack();
 
         for argument in arguments.iter_mut() {
             *argument = argument.clone().move_out_of_heap_primitive()?;
+        }
+
+        // A parameter with a concrete type (`int`, `str`, a list, a function, ...) has no place for
+        // `nil`, yet `nil` can reach it: a map answers `nil` for a key that it does not have. Like a
+        // `nil` receiver, that is an error of the running program and not an impossible state.
+        let is_nil = |argument: &Primitive| matches!(argument, Primitive::Optional(None));
+
+        if !self.takes_any_value() && arguments.iter().skip(1).any(is_nil) {
+            bail!("LOGIC ERROR IN CODE >> nil passed as an argument to the built-in function {self:?}")
         }
 
         match self {
